@@ -163,6 +163,11 @@ fn reload(b: &Built) -> Arc<ReadonlyRepo> { b.test_repo.env.load_repo_at_head(&b
 fn guarded(what: &str, f: impl FnOnce() -> Option<Value>) -> Option<Value> {
     match catch(AssertUnwindSafe(f)) {
         Ok(x) => x,
+        // not a violation but an inapplicable input: with the fixed `debug.commit-timestamp` of the harness, re-applying an
+        // edit to resurrected old commits (e.g. abandon x, commit, add_head(old descendant), abandon x again) makes
+        // rebase_descendants re-create a bit-identical commit, which CommitBuilder::write refuses with a clean Err
+        // ("Newly-created commit .. already exists"); with real timestamps the ids differ
+        Err(p) if p.contains("Newly-created commit") && p.contains("already exists") => None,
         Err(p) => Some(json!({"observed": format!("panic: {p}"), "required": format!("{what} does not panic")})),
     }
 }
